@@ -57,6 +57,61 @@ def wait_programs():
     return out
 
 
+RX_ATOMS = ['a', 'b', '.', '[^a]', '\\d', '[ab]', '[a-c]']
+RX_OPS = ['', '?', '*', '+', '{2}', '{1,2}', '{2,}']
+RX_TRICKY = ['(a*)*b', 'a{0}b', '(a|b)*abb', '[^a][^b]', '[^a]*a', '.*', '.+x', '(ab|a)(c|bc)', 'a?a?aa', '(a|ab)(c|bcd)(d*)', '\\w+@\\w+', '[\\w\\-]+', '[^\\d\\s]x',
+             '(\\.|[^"\\\\])*"', 'x[a-c\\d]{2,3}y', '(a{2}){2}', '((a))', '(a|b|c|d)', 'a|b*|c+', '[a-a]', '\\n\\t\\r', '.{3}', '(.a){2}', '[^ab]|a', 'ab*[^c]d', '\\S\\s\\S', '\\D\\W']
+RX_BIN = ['61', '61 62+', '(61|62)*63', '[61-63]{2}', '[^00]', '.', '00 [10-15]+|(44 56? 12)', 'ff.{2}', '[^61 62]63', '.*00']
+
+
+def _rx_prog(rx, binary=False, k=0):
+    src = "parser { " + ("b" if binary else "") + "/" + rx + "/; }\n"
+    return {"name": f"rx/{k}:{'b' if binary else ''}/{rx}/", "src": src, "args": ["-feof-support"], "path": None}
+
+
+def regex_programs(thorough=False, seed=0):
+    """every regex AST up to size 2 (thorough: 3) over a small atom set with all operators + tricky hand-written + random larger ones"""
+    import itertools, random
+    out = []
+    k = 0
+    units = [a + o for a in RX_ATOMS for o in RX_OPS]
+    rxs = list(units)
+    for x, y in itertools.product(units, units):
+        rxs.append(x + y)
+        rxs.append(x + "|" + y)
+    for x, y in itertools.product(RX_ATOMS, RX_ATOMS):
+        for o in RX_OPS[1:]:
+            rxs.append("(" + x + y + ")" + o)
+            rxs.append("(" + x + "|" + y + ")" + o)
+    if thorough:
+        small = [a + o for a in RX_ATOMS[:5] for o in ('', '?', '*', '+')]
+        for x, y, z in itertools.product(small, small, small):
+            rxs.append(x + y + z)
+            rxs.append(x + "(" + y + "|" + z + ")")
+            rxs.append("(" + x + "|" + y + ")*" + z)
+    rnd = random.Random(seed * 31 + 5)
+    pool = units + RX_TRICKY
+
+    def rand_rx(d):
+        if d == 0 or rnd.random() < 0.3:
+            return rnd.choice(pool)
+        c = rnd.random()
+        if c < 0.4:
+            return rand_rx(d - 1) + rand_rx(d - 1)
+        if c < 0.7:
+            return "(" + rand_rx(d - 1) + "|" + rand_rx(d - 1) + ")"
+        return "(" + rand_rx(d - 1) + ")" + rnd.choice(RX_OPS[1:])
+    for _ in range(1500 if thorough else 150):
+        rxs.append(rand_rx(3))
+    for rx in RX_TRICKY + rxs:
+        out.append(_rx_prog(rx, False, k))
+        k += 1
+    for rx in RX_BIN:
+        out.append(_rx_prog(rx, True, k))
+        k += 1
+    return out
+
+
 def case_programs():
     """clause sets for case / greedy case (drives the merge contracts)"""
     import itertools
